@@ -190,7 +190,31 @@ func render(r *common.Rng, rules []Rule, c *Case) {
 		fmt.Fprintf(&sb, "%s%d %d %d %d DSKR%s", hintPrefix, nd, ns, nk, nr, eol())
 	default: // no hint
 	}
+	if r.Chance(1, 25) { // a well-formed hint with absurd numbers: the map hint is dropped by make(map, n); a keyword or
+		// regexp hint above 2^44 violates the precondition of make([]string, 0, n) (values in between would really
+		// allocate: those are run in a memory-limited child by the directed probe only)
+		sb.Reset()
+		huge := []string{"17592186044417", "9223372036854775807", "4611686018427387904"}
+		d, k, rx := "0", "0", "0"
+		switch r.Intn(4) {
+		case 0:
+			d = common.Pick(r, huge[1:])
+		case 1:
+			k = common.Pick(r, huge)
+			c.HintPanic = true
+		case 2:
+			rx = common.Pick(r, huge)
+			c.HintPanic = true
+		default:
+			k = "1048576" // 2^20 strings = 16 MiB: really allocated
+		}
+		fmt.Fprintf(&sb, "%s%s %d %s %s DSKR%s", hintPrefix, d, r.Intn(5), k, rx, eol())
+		if c.HintPanic {
+			c.TextOK = false
+		}
+	}
 	if r.Chance(1, 30) { // a malformed hint as the first line
+		c.HintPanic = false
 		sb.Reset()
 		sb.WriteString(hintPrefix + common.Pick(r, badHints) + eol())
 		c.TextOK = false
@@ -502,7 +526,17 @@ func finish(r *rep, probes []string) {
 
 func fromText(name, text string, probes []string) *rep {
 	r := &rep{name: name}
-	b, err := domainset.BuilderFromText(text)
+	var b domainset.Builder
+	var err error
+	// a capacity hint beyond Go's make([]string, 0, n) precondition panics inside BuilderFromText
+	// ("makeslice: cap out of range"): the model predicts exactly that; any other panic propagates.
+	if pan := common.Safely(func() { b, err = domainset.BuilderFromText(text) }); pan != nil {
+		if strings.Contains(fmt.Sprint(pan), "makeslice: cap out of range") {
+			r.err = "panic"
+			return r
+		}
+		panic(pan)
+	}
 	if err != nil {
 		r.err = errClass(err)
 		return r
@@ -875,6 +909,9 @@ func domainEval(cases []Case, d *common.Driver, o *common.Options, rp *common.Re
 		}
 		if !c.TextOK {
 			rp.Count("domainset:malformed-text")
+		}
+		if c.HintPanic {
+			rp.Count("domainset:hint-beyond-makeslice")
 		}
 		if i < 2 {
 			rp.Sample(map[string]any{"engine": "domainset", "rules": len(c.Rules), "text": short(c.Text), "probes": len(c.Probes)})
